@@ -26,6 +26,7 @@ func c07Streams(c *Ctx) {
 	c07UntypedStream(c)
 	c07DefaultOutStream(c)
 	c07OrderStream(c)
+	c07ElementPositionStream(c)
 }
 
 // default   the legacy whole-stage shorthand `x = STAGE` (meaning
@@ -346,5 +347,108 @@ func c07UntypedStream(c *Ctx) {
 				c07JudgeCase(c, cs, class)
 			}
 		}
+	}
+}
+
+// elements  every element of a collection literal is checked on its own,
+//
+//	whatever stands before it: for 8 element types, arrays (and rows of
+//	2-dim arrays, array values of typed maps, array members of structs,
+//	split literals, map literals) are built from VALID elements of every
+//	literal kind the type accepts (for `int`: integer, integral float in
+//	three spellings, null) with one INVALID element (wrong kind, or - for
+//	`int` - a fractional float, i.e. the SAME literal kind as a valid
+//	neighbour) in every position after 0, 1 and 2 valid ones of every kind
+func c07ElementPositionStream(c *Ctx) {
+	flo := func(text string) *c07Exp {
+		for _, f := range c07Floats {
+			if f.text == text {
+				return c07Flo(f)
+			}
+		}
+		panic("no float literal " + text)
+	}
+	type elemSpec struct {
+		t       *c17Ty
+		valid   []*c07Exp
+		invalid []*c07Exp
+	}
+	specs := []elemSpec{
+		{c07B("int"), []*c07Exp{c07Int(1), flo("3.0"), flo("1e3"), flo("-2.0"), c07Null()}, []*c07Exp{flo("1.5"), flo("0.25"), flo("1e-3"), c07Str("s"), c07Bool(true)}},
+		{c07B("float"), []*c07Exp{c07Int(1), flo("1.5"), c07Null()}, []*c07Exp{c07Str("s"), c07Bool(true)}},
+		{c07B("string"), []*c07Exp{c07Str("a"), c07Null()}, []*c07Exp{c07Int(1), c07Bool(false), flo("1.5")}},
+		{c07B("bool"), []*c07Exp{c07Bool(true), c07Null()}, []*c07Exp{c07Int(1), c07Str("true")}},
+		{c07B("file"), []*c07Exp{c07Str("f.dat"), c07Null()}, []*c07Exp{c07Int(1), c07Bool(true)}},
+		{c07U("txt"), []*c07Exp{c07Str("f.txt"), c07Null()}, []*c07Exp{c07Int(1), flo("3.0")}},
+		{c07Pair, []*c07Exp{c07Witness(c07Pair), c07Null()}, []*c07Exp{c07Int(1), c07WrongNested(c07Pair), c07Arr(c07Witness(c07Pair))}},
+		{c07A(c07B("int")), []*c07Exp{c07Arr(c07Int(1), flo("3.0")), c07Arr(), c07Null()}, []*c07Exp{c07Arr(flo("3.0"), flo("1.5")), c07Arr(c07Int(1), c07Str("s")), c07Int(1)}},
+	}
+	type wrap struct {
+		name string
+		t    func(e *c17Ty) *c17Ty
+		lit  func(arr *c07Exp) c07Bind
+		ok   func(e *c17Ty) bool
+	}
+	wraps := []wrap{
+		{"array", func(e *c17Ty) *c17Ty { return c07A(e) }, func(a *c07Exp) c07Bind { return c07Bind{e: a} }, nil},
+		{"row", func(e *c17Ty) *c17Ty { return c07A(c07A(e)) }, func(a *c07Exp) c07Bind { return c07Bind{e: c07Arr(c07Arr(), a)} }, nil},
+		{"map_value", func(e *c17Ty) *c17Ty { return c07M(c07A(e)) }, func(a *c07Exp) c07Bind {
+			return c07Bind{e: &c07Exp{kind: 'm', keys: []string{"k"}, elems: []*c07Exp{a}}}
+		}, func(e *c17Ty) bool { return !e.isMapInside() }},
+		{"split", func(e *c17Ty) *c17Ty { return e }, func(a *c07Exp) c07Bind { return c07Bind{split: true, e: a} }, nil},
+		{"split_map", func(e *c17Ty) *c17Ty { return e }, func(a *c07Exp) c07Bind {
+			m := &c07Exp{kind: 'm'}
+			for i, x := range a.elems {
+				m.keys = append(m.keys, fmt.Sprintf("k%d", i))
+				m.elems = append(m.elems, x)
+			}
+			return c07Bind{split: true, e: m}
+		}, nil},
+		{"typed_map", func(e *c17Ty) *c17Ty { return c07M(e) }, func(a *c07Exp) c07Bind {
+			m := &c07Exp{kind: 'm'}
+			for i, x := range a.elems {
+				m.keys = append(m.keys, fmt.Sprintf("k%d", i))
+				m.elems = append(m.elems, x)
+			}
+			return c07Bind{e: m}
+		}, func(e *c17Ty) bool { return !e.isMapInside() }},
+	}
+	judge := func(w wrap, sp elemSpec, elems []*c07Exp, class string) {
+		if len(elems) == 0 && (w.name == "split" || w.name == "split_map") {
+			return
+		}
+		b := w.lit(c07Arr(elems...))
+		p, nb := c07One("x0", w.t(sp.t), b)
+		c07JudgeCase(c, &c07Case{env: &c07Env{}, params: []c17Field{p}, binds: []c07NamedBind{nb}, mapped: b.split}, class)
+	}
+	for _, sp := range specs {
+		for _, w := range wraps {
+			if w.ok != nil && !w.ok(sp.t) {
+				continue
+			}
+			// all valid, every kind next to every kind
+			for _, a := range sp.valid {
+				for _, b := range sp.valid {
+					judge(w, sp, []*c07Exp{a, b}, "elements_valid")
+				}
+			}
+			for _, bad := range sp.invalid {
+				judge(w, sp, []*c07Exp{bad}, "elements_invalid_first")
+				for _, a := range sp.valid {
+					judge(w, sp, []*c07Exp{a, bad}, "elements_invalid_after_valid")
+					judge(w, sp, []*c07Exp{a, bad, a}, "elements_invalid_between_valid")
+					for _, b := range sp.valid {
+						judge(w, sp, []*c07Exp{a, b, bad}, "elements_invalid_after_two_valid")
+					}
+				}
+			}
+		}
+	}
+	// an array member of a struct literal: WIDE(int a, string b, float c, int[] xs)
+	for _, xs := range [][]*c07Exp{{flo("3.0"), flo("1.5")}, {c07Int(1), flo("1e3"), flo("0.25")}, {flo("3.0"), flo("1e3")}, {c07Int(1), c07Str("s")}} {
+		w := c07Witness(c07Wide)
+		w.elems[3] = c07Arr(xs...)
+		p, nb := c07One("x0", c07Wide, c07Bind{e: w})
+		c07JudgeCase(c, &c07Case{env: &c07Env{}, params: []c17Field{p}, binds: []c07NamedBind{nb}}, "elements_struct_member")
 	}
 }
